@@ -252,7 +252,7 @@ def run(ctx):
         out["broken"].append({"kind": "correspondence", "what": f"heap model vs real classes: {len(bad)} disagreements", "detail": bad[0]})
     r = rng("c15")
     n, hows, samples = 0, {}, []
-    plan = [(cn, False) for cn in ["Cosmology", "Transfer", "MassFunction", "TransferWDM", "MassFunctionWDM"] for _ in range(4 if quick else 60)]
+    plan = [(cn, False) for cn in ["Cosmology", "Transfer", "MassFunction", "TransferWDM", "MassFunctionWDM"] for _ in range(7 if quick else 60)]
     plan += [("Transfer", True)] * (3 if quick else 20) + [("MassFunction", True)] * (2 if quick else 20)
     for cn, camb in plan:
         v, script, how = one(r, cn, camb, quick)
